@@ -362,6 +362,7 @@ def main(run):
     # ------------------------------------------------------------ end-to-end through the Phonopy API
     _end_to_end(run, rng, thorough, lines, meta)
     _large_mesh(run, rng, thorough)
+    _relabelled(run, rng, thorough)
 
     # ------------------------------------------------------------ compare with the model
     out = common.lean_run_driver("C09", lines)
@@ -529,6 +530,72 @@ def _same_grid(gp, m, info):
         if not (qi == qm).all():
             return False, "q-points (exact)"
     return True, ""
+
+
+def _relabelled(run, rng, thorough):
+    """DESCRIPTION INVARIANCE: the same crystal with relabelled lattice vectors (swap / negation / inversion: left-handed;
+    shear: non-reduced; cyclic). The property's oracle runs ON the relabelled description (reduced = full sampling, sum of
+    weights), and mesh averages on the same Gamma-centred grid are compared between the descriptions."""
+    kinds_neg = ["swap12", "negate3", "invert"]
+    kinds = [rng.choice(kinds_neg), rng.choice(["shear", "cyclic"])]
+    if thorough:
+        kinds = list(gen.UNIMODULAR)
+    elif rng.random() < 0.5:
+        kinds.append(rng.choice(list(gen.UNIMODULAR)))
+    names = ["cscl", "nacl_prim", "hcp", "bct", "mono_P", "triclinic", "rhombo", "zincblende_prim"]
+    for kind in kinds:
+        name = rng.choice(names)
+        cell, cen = U.make_cell(name)
+        M = np.array(gen.UNIMODULAR[kind], dtype=int)
+        cell2, qmap, smap = gen.relabelled_cell(cell, M)
+        S = np.diag([2, 2, 2]) if len(cell) <= 2 else np.diag([2, 2, 1])
+        if kind == "shear":
+            m0 = rng.choice([3, 4, 5])
+            mesh = [m0, m0, rng.randint(2, 5)]          # the sheared axes need equal mesh numbers to span the same grid
+        else:
+            mesh = [rng.randint(2, 5) for _ in range(3)]
+        mesh2 = [int(v) for v in np.abs(M) @ np.array(mesh)] if kind != "shear" else list(mesh)
+        order = rng.choice([1, 2, 3])
+        res = {}
+        for tag, c_, S_, mesh_ in (("original", cell, S, mesh), (kind, cell2, smap(S), mesh2)):
+            ph = gen.make_phonopy(c_, S_, pmat="P")
+            ph.force_constants = gen.pair_fc(ph.supercell, min(0.9 * gen.min_lattice_vector(ph.supercell.cell), 5.0))
+            per = {}
+            for sym in (True, False):
+                ph.run_mesh(mesh_, is_mesh_symmetry=sym, is_gamma_center=True)
+                md = ph.get_mesh_dict()
+                w = np.array(md["weights"])
+                ph.run_thermal_properties(t_min=0, t_max=600, t_step=300, cutoff_frequency=0.05)
+                tp = ph.get_thermal_properties_dict()
+                ph.run_moment(order=order, freq_min=0.05)
+                per[sym] = (np.array([tp["free_energy"], tp["entropy"], tp["heat_capacity"]]), float(ph.get_moment()), int(w.sum()), len(w))
+            info = dict(cell=name, description=tag, M=M.tolist() if tag != "original" else None, volume=float(c_.volume), supercell_matrix=np.array(S_).tolist(),
+                        mesh=list(mesh_), is_gamma_center=True, force_constants="gen.pair_fc")
+            a, b = per[True], per[False]
+            rel = max(float(np.abs(a[0] - b[0]).max() / max(1.0, np.abs(b[0]).max())), abs(a[1] - b[1]) / max(1.0, abs(b[1])))
+            run.count("oracle-relabelled-on-off", section="oracle")
+            if a[2] != int(np.prod(mesh_)) or b[2] != int(np.prod(mesh_)) or rel > 1e-8:
+                run.violation("Phonopy.run_mesh", "mesh-symmetry-on-ne-off" + ("-left-handed" if c_.volume < 0 else ("-relabelled" if tag != "original" else "")),
+                              "on the %s description: weights sum %d/%d (N = %d), thermal properties / moment on vs off differ by rel. %.3g"
+                              % (tag, a[2], b[2], int(np.prod(mesh_)), rel), info)
+            res[tag] = per
+        o, r = res["original"], res[kind]
+        run.case(("relabel", name, kind, tuple(mesh)), nontrivial=True)
+        run.count("relabelled description: %s" % kind)
+        info = dict(cell=name, M=M.tolist(), kind=kind, mesh=list(mesh), mesh_relabelled=list(mesh2), supercell_matrix=S.tolist(), force_constants="gen.pair_fc")
+        for sym in (True, False):
+            rel = max(float(np.abs(o[sym][0] - r[sym][0]).max() / max(1.0, np.abs(o[sym][0]).max())), abs(o[sym][1] - r[sym][1]) / max(1.0, abs(o[sym][1])))
+            run.count("oracle-relabelled-vs-original", section="oracle")
+            if rel > 1e-8:
+                run.violation("Phonopy.run_mesh", "mesh-average-depends-on-description" + ("-left-handed" if int(round(np.linalg.det(M))) < 0 else ""),
+                              "thermal properties / moment on the same Gamma-centred grid differ between the original and the %s description by rel. %.3g (is_mesh_symmetry=%s)"
+                              % (kind, rel, sym), info)
+        if kind != "shear":
+            if o[True][3] != r[True][3]:
+                run.violation("Phonopy.run_mesh", "ir-count-depends-on-description", "number of irreducible q-points %d vs %d for the %s description (same point group, same grid)"
+                              % (o[True][3], r[True][3], kind), info)
+        elif o[True][3] != r[True][3]:
+            run.count("observed: ir-point count differs between original and sheared description")
 
 
 def _large_mesh(run, rng, thorough):
